@@ -86,3 +86,17 @@ Definition verdict_of (c : cell) (x : ctx) : verdict :=
                end
            end
   end.
+
+(* ---- statement-level operand positions ------------------------------------------------------ *)
+Definition all_stmts : list stmt :=
+  map SRepeat all_tys ++ map SWhile all_tys ++ map SIf all_tys
+  ++ flat_map (fun a => map (SListCount a) all_tys) all_tys
+  ++ flat_map (fun a => map (SListLit a) all_tys) all_tys
+  ++ flat_map (fun a => flat_map (fun b => map (SIndexAssign a b) all_tys) all_tys) all_tys
+  ++ flat_map (fun a => flat_map (fun b => map (SFor a b) all_tys) all_tys) all_tys
+  ++ flat_map (fun a => flat_map (fun b => flat_map (fun c => map (SForStep a b c) all_tys) all_tys) all_tys) all_tys
+  ++ flat_map (fun a => map (SForRange a) all_tys) all_tys.
+
+Definition stmt_ok (s : stmt) : bool := negb (tc_stmt s) || stmt_well_typed (lower_stmt s).
+
+Definition bad_stmts : list stmt := filter (fun s => negb (stmt_ok s)) all_stmts.
